@@ -1604,7 +1604,19 @@ func (u *Unit) checkPost(st *State, res []Value, pos token.Pos) {
 	for _, gs := range u.spec.GhostSets {
 		env := st.newEnv(fr, res)
 		env.post = true
-		st.ghostAssign(env, gs[0], gs[1])
+		func() {
+			defer func() {
+				if r := recover(); r != nil {
+					if ee, ok := r.(*EngineError); ok && (strings.Contains(ee.msg, "unknown identifier") || strings.Contains(ee.msg, "no such local")) {
+						// the value names a local that does not exist on this path (an early return): the ghost variable keeps
+						// its value here
+						return
+					}
+					panic(r)
+				}
+			}()
+			st.ghostAssign(env, gs[0], gs[1])
+		}()
 		st.assumeAll(env.defs)
 	}
 	for _, c := range u.spec.Ensures {
